@@ -22,12 +22,89 @@ impl C02 {
 	}
 }
 
+/// number of thread populations tried by the concurrent case (quick, thorough)
+const N_STRESS: (usize, usize) = (8, 64);
+
+/// Threads of one process convert DIFFERENT small games at the same time, again and again. The
+/// archive each conversion produces is compared with the one the same game gave single-threaded;
+/// any other archive is judged in full (read back, serialised, compared with the input file).
+fn stress_kind(ctx: &Ctx, k: usize, out: &mut CaseOut) {
+	let nthreads = 12;
+	let iters = ctx.tier.pick(1500usize, 4000);
+	let comp = Comp::ALL[k % 3];
+	let mut inputs = vec![];
+	for (d, b) in crate::stress::games(ctx.seed, k, nthreads, true) {
+		// single-threaded reference, itself required to be lossless (else C02's main family reports it)
+		let reference = common::slp_read(&b, false, false).and_then(|g| common::slpp_write(g, comp));
+		match reference {
+			Ok(a) if common::slpp_read(&a, false).and_then(|g| common::slp_write(&g)).map_or(false, |w| w == b) => inputs.push((d, b, a)),
+			_ => out.count("stress_input_skipped(sequential trip not lossless)", 1),
+		}
+	}
+	if inputs.len() < 2 {
+		return;
+	}
+	let n_in = inputs.len();
+	let results = crate::stress::run(inputs, move |_t, (d, b, reference)| {
+		let mut o = crate::stress::Outcome::default();
+		for i in 0..iters {
+			let r = common::slp_read(&b, false, false).and_then(|g| common::slpp_write(g, comp));
+			match r {
+				Ok(a) if a == reference => {}
+				Ok(a) => {
+					o.judged_in_full += 1;
+					match common::slpp_read(&a, false).and_then(|g| common::slp_write(&g)) {
+						Ok(w) if w == b => {}
+						Ok(w) => o.problems.push(format!("{}: conversion {} while other threads convert other games: the archive reads back as a different game: {}", d, i, common::first_diff(&b, &w))),
+						Err(f) => o.problems.push(format!("{}: conversion {} while other threads convert other games: the archive cannot be read back: {}", d, i, f.text())),
+					}
+				}
+				Err(f) => o.problems.push(format!("{}: conversion {} while other threads convert other games: {}", d, i, f.text())),
+			}
+			o.done += 1;
+			if o.problems.len() >= 2 {
+				break;
+			}
+		}
+		o
+	});
+	for r in results {
+		match r {
+			Ok(o) => {
+				out.evals += o.done;
+				out.count("concurrent_conversions", o.done);
+				out.count("concurrent_archives_judged_in_full", o.judged_in_full);
+				for p in o.problems.into_iter().take(1) {
+					out.violate_sub(k as u64, "concurrent-conversion-lossy", p, None);
+				}
+			}
+			Err(()) => out.violate_sub(k as u64, "concurrent-conversion-panic", "a thread of the concurrent case panicked outside the guards".to_string(), None),
+		}
+	}
+	out.class(format!("concurrent|{}-threads|{}|comp={}", n_in, crate::stress::kind_name(k), comp.name()));
+}
+
+/// The concurrent family is ONE case, numbered last: its shard reaches it when the other shards
+/// are finishing, so its threads really run side by side on the cores instead of time-sliced among
+/// 16 busy worker processes. The kinds of thread population are its sub-evaluations.
+fn stress_case(ctx: &Ctx) -> CaseOut {
+	let mut out = CaseOut::default();
+	for k in 0..ctx.tier.pick(N_STRESS.0, N_STRESS.1) {
+		if !ctx.mark(k as u64) {
+			continue;
+		}
+		stress_kind(ctx, k, &mut out);
+	}
+	out.sample = Some(json!({"case": "concurrent", "kinds": ctx.tier.pick(N_STRESS.0, N_STRESS.1), "evaluations": out.evals}));
+	out
+}
+
 impl Monitor for C02 {
 	fn id(&self) -> &'static str {
 		"C02"
 	}
 	fn rule(&self) -> String {
-		"C01's replay space (fixtures, all 784 versions, layout x shape matrix incl. zero frames / no metadata / no Game End / no gecko / doubled end / empty port set, random histories; plus very long games with 65 535 .. 140 000 frame rows) x compression {none, LZ4, ZSTD} x hash {requested, not}. Steps observed separately: slippi::read -> peppi::write -> [every 4th trip: a read of the archive truncated to 2/3, which must not influence what follows] -> peppi::read (through the fragmenting source: whole / 512 / 97 / random<=3000 / 8192-byte reads, rotating) -> slippi::write; every third archive is also written through a sink that accepts 1/5/511/513 bytes per call and must read back losslessly as well; oracle: final bytes == input bytes, hash and quirks after the trip == before. One evaluation = one (file, compression, hash) triple. distinct = workload classes x compression x hash.".into()
+		"C01's replay space (fixtures, all 784 versions, layout x shape matrix incl. zero frames / no metadata / no Game End / no gecko / doubled end / empty port set, random histories; plus very long games with 65 535 .. 140 000 frame rows) x compression {none, LZ4, ZSTD} x hash {requested, not}. Steps observed separately: slippi::read -> peppi::write -> [every 4th trip: a read of the archive truncated to 2/3, which must not influence what follows] -> peppi::read (through the fragmenting source: whole / 512 / 97 / random<=3000 / 8192-byte reads, rotating) -> slippi::write; every third archive is also written through a sink that accepts 1/5/511/513 bytes per call and must read back losslessly as well; oracle: final bytes == input bytes, hash and quirks after the trip == before. A family of concurrent cases runs 12 threads that each convert a DIFFERENT small game 1500 (4000) times at once (same version and ports but other frames in even cases, different versions and ports in odd ones); every archive that differs from the single-threaded one is read back and must serialise to its own input. One evaluation = one (file, compression, hash) triple or one concurrent conversion. distinct = workload classes x compression x hash.".into()
 	}
 	fn lanes(&self, _tier: Tier) -> Vec<Lane> {
 		vec![
@@ -36,7 +113,7 @@ impl Monitor for C02 {
 		]
 	}
 	fn n_cases(&self, ctx: &Ctx) -> usize {
-		self.fixtures.len() + ctx.tier.pick(&self.quick, &self.thorough).len() + ctx.tier.pick(2, 8)
+		self.fixtures.len() + ctx.tier.pick(&self.quick, &self.thorough).len() + ctx.tier.pick(2, 8) + 1
 	}
 	fn min_classes(&self, tier: Tier) -> usize {
 		tier.pick(100, 200)
@@ -44,6 +121,9 @@ impl Monitor for C02 {
 	fn run(&self, ctx: &Ctx, idx: usize) -> CaseOut {
 		let mut out = CaseOut::default();
 		let n_main = self.fixtures.len() + ctx.tier.pick(&self.quick, &self.thorough).len();
+		if idx >= n_main + ctx.tier.pick(2, 8) {
+			return stress_case(ctx);
+		}
 		let input = if idx >= n_main {
 			// very long games: row counts around 2^16 and beyond (one small character, old layout)
 			let k = idx - n_main;
@@ -88,12 +168,30 @@ impl Monitor for C02 {
 				// history: every 4th trip is preceded by a write of the same game into a sink that fails
 				// part-way (same thread); it must fail and leave nothing behind
 				if (idx + ci) % 4 == 2 {
-					if let Ok(g0) = common::slp_read(&bytes, false, hash) {
-						let cut = 600 + (idx * 7919 + ci * 104729) % (bytes.len() + 4000);
-						let (r, _) = common::slpp_write_sink(g0, *comp, crate::iofault::Sink::failing(cut));
-						match r {
-							Err(_) => out.count("failing_sink_write_before_real_write", 1),
-							Ok(()) => out.count("failing_sink_beyond_archive_end", 1),
+					if (idx / 4) % 2 == 0 {
+						if let Ok(g0) = common::slp_read(&bytes, false, hash) {
+							let cut = 600 + (idx * 7919 + ci * 104729) % (bytes.len() + 4000);
+							let (r, _) = common::slpp_write_sink(g0, *comp, crate::iofault::Sink::failing(cut));
+							match r {
+								Err(_) => out.count("failing_sink_write_before_real_write", 1),
+								Ok(()) => out.count("failing_sink_beyond_archive_end", 1),
+							}
+						}
+					} else {
+						// the write that fails is of ANOTHER game of the same shape (same version and
+						// ports, other frame content), and it fails late, inside frames.arrow: whatever it
+						// left behind would be invisible if it were the same game
+						let mut r3 = crate::rng::Rng::derive(ctx.seed, 0xC02D ^ idx as u64);
+						if let Some(ob) = common::sibling_game(truth.version, &truth.start, 5 + idx % 7, &mut r3) {
+							let full = common::slp_read(&ob, false, hash).and_then(|g| common::slpp_write(g, *comp));
+							if let (Ok(full), Ok(g0)) = (full, common::slp_read(&ob, false, hash)) {
+								let back = [3usize, 700, 1100, 1600, 2600, 5000][(idx / 8) % 6].min(full.len() / 2);
+								let (r, _) = common::slpp_write_sink(g0, *comp, crate::iofault::Sink::failing(full.len() - back));
+								match r {
+									Err(_) => out.count("failing_late_write_of_another_game_before_real_write", 1),
+									Ok(()) => out.count("failing_sink_beyond_archive_end", 1),
+								}
+							}
 						}
 					}
 				}
